@@ -74,6 +74,7 @@ func RaftNode.AddBulk
   ensures C11/empty-bulk-never-proposed: len(bulk) == 0 ==> proposeCalls == old(proposeCalls) && !isnil(result_1)
   ensures C11/at-most-one-proposal: proposeCalls == old(proposeCalls) || proposeCalls == old(proposeCalls) + 1
   ensures C17/one-send-per-issued-snapshot: isnil(result_1) ==> sends[n.snapshotsCh] == old(sends[n.snapshotsCh]) + len(result_0)
+  ensures isnil(result_1) ==> forall k int :: 0 <= k && k < len(result_0) ==> result_0[k] != nil
   ensures C17/nothing-sent-on-error: !isnil(result_1) ==> sends[n.snapshotsCh] == old(sends[n.snapshotsCh])
   ensures C17/what-was-sent-is-what-was-issued: isnil(result_1) ==> forall k int :: 0 <= k && k < len(result_0) ==> sameSnap(sentSnap(n, old(sends[n.snapshotsCh]) + k), result_0[k])
   // ASSUMED (C05 for the balloon, carried through raft): one snapshot per event
@@ -84,9 +85,10 @@ func RaftNode.AddBulk
   loop 2 invariant C17/sent-so-far-are-the-issued-ones: forall k int :: 0 <= k && k <= rangeindex ==> allocated(sentSnap(n, old(sends[n.snapshotsCh]) + k)) && sameSnap(sentSnap(n, old(sends[n.snapshotsCh]) + k), snapshotBulk[k])
 
 func RaftNode.Add
-  props C05 C11
+  props C05 C11 C17
   requires n.hasherF != nil && pure_fn(n.hasherF) && nonnil_fn(n.hasherF)
-  modifies everything, proposeCalls
+  modifies everything, proposeCalls, sends, sentv
+  ensures C17/one-send-for-a-single-insertion: isnil(result_1) ==> sends[n.snapshotsCh] == old(sends[n.snapshotsCh]) + 1 && result_0 != nil && sameSnap(sentSnap(n, old(sends[n.snapshotsCh])), result_0)
 
 func RaftNode.QueryDigestMembership
   props C11
